@@ -3,9 +3,18 @@ package main
 import (
 	"fmt"
 	"io"
+	"os"
+	"path/filepath"
+	"sort"
 	"strings"
+	"syscall"
 	"testing"
+	"time"
+	"unsafe"
 
+	"github.com/mk6i/mkdb/engine"
+	"github.com/mk6i/mkdb/sql"
+	"github.com/mk6i/mkdb/storage"
 	"verif/lib"
 )
 
@@ -277,6 +286,11 @@ func runC20(env *lib.Env, rep *lib.Report) {
 			check(fmt.Sprintf("length/%d/multiline", total), append(append([]string{}, lead...), broken), betw, "", 255)
 		}
 	}
+	// (4) end to end through the real console loop: runTerminal on a pseudo-terminal, a real session
+	// and a real database; what the engine was handed is read back from the database afterwards
+	if env.Shard == 0 {
+		c20Pty(env, rep)
+	}
 	rep.Bounds["fragments"] = len(c20Fragments)
 	rep.Bounds["read chunk sizes"] = "1, 2, 255, whole input"
 	rep.Bounds["line breaks"] = "CR (what a raw-mode terminal delivers for Enter and for pasted newlines); bare LF is not a key the terminal knows and is outside the enumeration; bracketed-paste markers are never sent because the console does not enable bracketed paste"
@@ -296,4 +310,186 @@ func clipAll(ss []string) []string {
 		out[i] = clip(s)
 	}
 	return out
+}
+
+// ---- pseudo-terminal family --------------------------------------------------
+
+func ioctl(fd uintptr, req uintptr, arg unsafe.Pointer) error {
+	if _, _, e := syscall.Syscall(syscall.SYS_IOCTL, fd, req, uintptr(arg)); e != 0 {
+		return e
+	}
+	return nil
+}
+
+func openPty() (master, slave *os.File, err error) {
+	master, err = os.OpenFile("/dev/ptmx", os.O_RDWR, 0)
+	if err != nil {
+		return nil, nil, err
+	}
+	var n uint32
+	if err = ioctl(master.Fd(), syscall.TIOCGPTN, unsafe.Pointer(&n)); err != nil {
+		return nil, nil, err
+	}
+	var unlock int32
+	if err = ioctl(master.Fd(), syscall.TIOCSPTLCK, unsafe.Pointer(&unlock)); err != nil {
+		return nil, nil, err
+	}
+	slave, err = os.OpenFile(fmt.Sprintf("/dev/pts/%d", n), os.O_RDWR|syscall.O_NOCTTY, 0)
+	return master, slave, err
+}
+
+type ptyScript struct {
+	name   string
+	typed  string              // what the user types (CR = Enter); Ctrl-D is appended
+	dbs    []string            // databases that must exist afterwards
+	tables map[string][]string // "db.table" -> values of column c in order
+}
+
+// runOnPty feeds the script to the real runTerminal over a pseudo-terminal.
+func runOnPty(sc ptyScript, chunk int) (problem string) {
+	dir := filepath.Join(lib.ScratchRoot(), fmt.Sprintf("pty-%d", time.Now().UnixNano()))
+	os.MkdirAll(dir, 0755)
+	home, _ := os.Getwd()
+	os.Chdir(dir)
+	defer func() { os.Chdir(home); os.RemoveAll(dir) }()
+	if err := storage.InitStorage(); err != nil {
+		panic(lib.HarnessError{Msg: err.Error()})
+	}
+	master, slave, err := openPty()
+	if err != nil {
+		panic(lib.HarnessError{Msg: "no pseudo-terminal available: " + err.Error()})
+	}
+	defer master.Close()
+	defer slave.Close()
+	// the console reads os.Stdin and writes os.Stdout and puts fd 0 into raw mode
+	save0, _ := syscall.Dup(0)
+	save1, _ := syscall.Dup(1)
+	syscall.Dup2(int(slave.Fd()), 0)
+	syscall.Dup2(int(slave.Fd()), 1)
+	restore := func() {
+		syscall.Dup2(save0, 0)
+		syscall.Dup2(save1, 1)
+		syscall.Close(save0)
+		syscall.Close(save1)
+	}
+	// drain what the console echoes, or the pty buffer fills up and the console blocks
+	prompt := make(chan struct{})
+	go func() {
+		buf := make([]byte, 4096)
+		first := true
+		for {
+			if _, err := master.Read(buf); err != nil {
+				return
+			}
+			if first {
+				first = false
+				close(prompt)
+			}
+		}
+	}()
+	sess := &engine.Session{}
+	done := make(chan error, 1)
+	go func() { done <- runTerminal(sess) }()
+	// the prompt is printed after the terminal has been put into raw mode; typing earlier would let
+	// the line discipline of the fresh pty eat the control characters
+	select {
+	case <-prompt:
+	case <-time.After(30 * time.Second):
+		restore()
+		panic(lib.HarnessError{Msg: "the console printed no prompt on the pseudo-terminal"})
+	}
+	input := []byte(sc.typed + "\x04")
+	for len(input) > 0 {
+		n := chunk
+		if n <= 0 || n > len(input) {
+			n = len(input)
+		}
+		master.Write(input[:n])
+		input = input[n:]
+		if chunk > 0 {
+			time.Sleep(200 * time.Microsecond)
+		}
+	}
+	select {
+	case err := <-done:
+		restore()
+		if err != nil {
+			return "runTerminal returned an error: " + err.Error()
+		}
+	case <-time.After(60 * time.Second):
+		restore()
+		return "the console did not finish within 60 s after Ctrl-D"
+	}
+	sess.Close()
+	// read back what reached the engine
+	rows, _, err := storage.ShowDB()
+	if err != nil {
+		return "SHOW DATABASES: " + err.Error()
+	}
+	var got []string
+	for _, r := range rows {
+		got = append(got, fmt.Sprint(r.Vals[0]))
+	}
+	sort.Strings(got)
+	want := append([]string{}, sc.dbs...)
+	sort.Strings(want)
+	if strings.Join(got, ",") != strings.Join(want, ",") {
+		return fmt.Sprintf("databases afterwards: %v, the typed statements create %v", got, want)
+	}
+	for _, key := range lib.SortedKeys(sc.tables) {
+		parts := strings.SplitN(key, ".", 2)
+		s2 := &engine.Session{}
+		if err := s2.ExecQuery("USE " + parts[0]); err != nil {
+			return "USE " + parts[0] + ": " + err.Error()
+		}
+		ts := sql.NewTokenScanner(strings.NewReader("SELECT c FROM " + parts[1]))
+		tl := sql.TokenList{}
+		for ts.Next() {
+			tl.Add(ts.Cur())
+		}
+		p := sql.Parser{TokenList: tl}
+		st, _ := p.Parse()
+		res, _, err := engine.EvaluateSelect(st.(sql.Select), s2.RelationService)
+		s2.Close()
+		if err != nil {
+			return "SELECT c FROM " + key + ": " + err.Error()
+		}
+		var vals []string
+		for _, r := range res {
+			vals = append(vals, fmt.Sprint(r.Vals[0]))
+		}
+		if strings.Join(vals, "|") != strings.Join(sc.tables[key], "|") {
+			return fmt.Sprintf("table %s holds %q, the typed statements store %q", key, vals, sc.tables[key])
+		}
+	}
+	return ""
+}
+
+func c20Pty(env *lib.Env, rep *lib.Report) {
+	scripts := []ptyScript{
+		{"failing statement in the middle of a line",
+			"CREATE DATABASE x1; CREATE DATABASE x1; CREATE DATABASE x2;\r",
+			[]string{"x1", "x2"}, nil},
+		{"failing statements between good ones, literals with semicolons",
+			"CREATE DATABASE x1;\rUSE x1; CREATE TABLE t (c varchar(255));\rINSERT INTO t VALUES ('a;b'); INSERT INTO t VALUES ('bad', 1); INSERT INTO nosuch VALUES ('n'); INSERT INTO t VALUES ('c ; d');\rINSERT INTO t\rVALUES ('e');\r",
+			[]string{"x1"}, map[string][]string{"x1.t": {"a;b", "c ; d", "e"}}},
+		{"syntax error first, then good statements on the same line",
+			"SELEKT 1; CREATE DATABASE y1; USE y1; CREATE TABLE t (c varchar(255)); INSERT INTO t VALUES ('one'), ('two');\r",
+			[]string{"y1"}, map[string][]string{"y1.t": {"one", "two"}}},
+		{"two databases, switching back and forth, multi-line statements",
+			"CREATE DATABASE a1; CREATE DATABASE b1;\rUSE a1;\rCREATE TABLE t\r(c varchar(255));\rINSERT INTO t VALUES ('in a');\rUSE b1; CREATE TABLE t (c varchar(255)); INSERT INTO t VALUES ('in b'); USE a1; INSERT INTO t VALUES ('again a');\r",
+			[]string{"a1", "b1"}, map[string][]string{"a1.t": {"in a", "again a"}, "b1.t": {"in b"}}},
+	}
+	for _, sc := range scripts {
+		for _, chunk := range []int{0, 1, 7} {
+			problem := runOnPty(sc, chunk)
+			rep.AddCase(true, lib.HashString("pty|"+sc.name+fmt.Sprint(chunk)), lib.HashString(problem))
+			if problem != "" {
+				rep.AddFailure(&lib.Failure{Kind: "console", Detail: fmt.Sprintf("[pty: %s, write chunk %d] typed %q\n %s", sc.name, chunk, sc.typed, problem), Trace: []string{"pty", sc.typed, fmt.Sprint(chunk)}})
+			} else if rep.WantSample() {
+				rep.AddSample(map[string]any{"family": "pty (real runTerminal on a pseudo-terminal)", "typed": sc.typed})
+			}
+		}
+	}
+	rep.Bounds["pty family"] = fmt.Sprintf("%d scripts x 3 write chunkings through the real runTerminal loop on a pseudo-terminal with a real session; databases and table contents read back afterwards", len(scripts))
 }
